@@ -27,6 +27,7 @@ EXTENDS Integers, Sequences, FiniteSets
 
 CONSTANTS Nodes,       \* data nodes (integers)
           R,           \* configured replication factor
+          InitK,       \* number of replicas of the initial layout
           MaxEpoch,    \* bound: number of metadata writes explored
           MaxID        \* bound: largest raft id explored
 \* guards that can be switched off one at a time (spec mutants; all TRUE = the design)
@@ -131,11 +132,15 @@ Called == calls' = IF CountCalls THEN calls + 1 ELSE calls
 Env == [alive |-> alive, unsynced |-> unsynced, members |-> members]
 Copy(src) == IF src = "snap" THEN snap ELSE meta
 
-InitNodes == [i \in 1..R |-> i]       \* a valid layout; which nodes is irrelevant by symmetry
-CInit == /\ meta = [nodes |-> InitNodes, ids |-> [n \in 1..R |-> n], rem |-> {}, maxid |-> R, epoch |-> 1]
+\* "starting from any valid layout": InitK replicas (a strict majority of R, at most R) on nodes
+\* 1..InitK - which nodes is irrelevant by symmetry; InitK < R is a partition that lost replicas
+\* earlier (their ids InitK+1..R are used up)
+ASSUME InitK \in 1..R /\ 2 * InitK > R
+InitNodes == [i \in 1..InitK |-> i]
+CInit == /\ meta = [nodes |-> InitNodes, ids |-> [n \in 1..InitK |-> n], rem |-> {}, maxid |-> R, epoch |-> 1]
          /\ snap = meta
          /\ alive = Nodes /\ unsynced = {}
-         /\ members = [n \in 1..R |-> n]
+         /\ members = [n \in 1..InitK |-> n]
          /\ usedIDs = 1..R
          /\ bad = {}
          /\ calls = 0
